@@ -729,6 +729,86 @@ def gen_fanout_case(r):
     return {"trig": gen_trigger(r), "main": "main", "defs": [{"name": "main", "steps": steps}], "fns": fns}
 
 
+def gen_digit_label_case(r):
+    """steps whose (schema-valid) labels START WITH A DIGIT, referenced by later steps — only possible through index
+    syntax (`steps["1st"].got.x`); the referenced steps are Ok, skipped, failing …"""
+    fns, steps = {}, []
+    labels = r.sample(["1st", "2nd", "3rd0", "123", "9x_"], r.randint(1, 2)) + ["base"]
+    r.shuffle(labels)
+    for i, l in enumerate(labels):
+        c = r.choice(["ok", "ok", "ok", "skip", "retry", "permFail"])
+        fns[f"main.{l}"] = _vf(c, 5) if r.random() < 0.7 or c != "ok" else _rf(f"main.{l}", "get-ok")
+        skip_if = lit(True) if r.random() < 0.15 else None
+        steps.append(_step(l, {"ref": {"fn": f"main.{l}"}}, inputs={"map": [["x", lit(i)], ["flag", lit(r.random() < 0.5)]]},
+                           skip_if=skip_if))
+    digit = [l for l in labels if l[0].isdigit()]
+    for j in range(r.randint(1, 3)):
+        l = f"use{j}"
+        target = r.choice(digit)
+        ins = [["v", path("steps", target, "got", "x")]]
+        if r.random() < 0.4:
+            ins.append(["b", path("steps", "base", "got", "x")])
+        if r.random() < 0.3 and j:
+            ins.append(["p", path("steps", f"use{j - 1}", "got", "v")])
+        sk = path("steps", r.choice(digit), "got", "flag") if r.random() < 0.25 else None
+        fe = {"itemIn": lit(["a", "b"]), "inputKey": "item"} if r.random() < 0.15 else None
+        fns[f"main.{l}"] = _vf() if r.random() < 0.6 else _rf(f"main.{l}", "get-ok")
+        steps.append(_step(l, {"ref": {"fn": f"main.{l}"}}, inputs={"map": ins}, skip_if=sk, for_each=fe))
+    return {"trig": gen_trigger(r), "main": "main", "defs": [{"name": "main", "steps": steps}], "fns": fns}
+
+
+TYPED = [["issued", {"$ts": "2024-01-02T03:04:05Z"}], ["ttl", {"$dur": 5400}], ["token", {"$bytes": "73336372"}],
+         ["generation", {"$uint": 7}]]
+
+
+def gen_typed_value_case(r):
+    """a step whose return value carries CEL values WITHOUT a JSON counterpart (timestamp, duration, bytes, uint) next to
+    ordinary ones, and later steps that reference them (whole value, single members, nested in maps / lists)"""
+    fns, steps = {}, []
+    extra = r.sample(TYPED, r.randint(1, 4))
+    fns["main.st0"] = {**_vf(), "extra": extra}
+    steps.append(_step("st0", {"ref": {"fn": "main.st0"}}, inputs={"map": [["name", lit("lease")], ["n", lit(3)]]}))
+    for i in range(1, r.randint(2, 4)):
+        l = f"st{i}"
+        ins = []
+        for k, _ in r.sample(extra, r.randint(1, len(extra))):
+            ins.append([k, path("steps", "st0", k)])
+        if r.random() < 0.5:
+            ins.append(["all", path("steps", "st0")])
+        if r.random() < 0.4:
+            ins.append(["nest", {"map": [["in", {"list": [path("steps", "st0", extra[0][0]), lit(1)]}]]}])
+        if i > 1 and r.random() < 0.5:
+            ins.append(["prev", path("steps", f"st{i - 1}", "got")])
+        fns[f"main.{l}"] = _vf() if r.random() < 0.7 else _rf(f"main.{l}", "get-ok")
+        steps.append(_step(l, {"ref": {"fn": f"main.{l}"}}, inputs={"map": ins}))
+    return {"trig": gen_trigger(r), "main": "main", "defs": [{"name": "main", "steps": steps}], "fns": fns}
+
+
+def gen_gated_lookup_case(r):
+    """a step whose ResourceFunction has a kind of its own and NO `plural` (its first API request is the discovery call
+    `lookup_kind`), behind a dependency that is not Ok / behind a true skipIf / behind unevaluable inputs — and, as
+    controls, behind an Ok dependency (then the discovery call, the GET … are expected)"""
+    fns, steps = {}, []
+    gate_c = r.choice(["skip", "retry", "permFail", "depSkip", "ok", "ok"])
+    fns["main.st0"] = _vf(gate_c, 5)
+    steps.append(_step("st0", {"ref": {"fn": "main.st0"}}, inputs={"map": [["x", lit(1)], ["flag", lit(True)]]}))
+    for i in range(1, r.randint(2, 3)):
+        l = f"st{i}"
+        site = f"main.{l}"
+        f = _rf(site, r.choice(["get-ok", "match-ok", "create", "get-retry"]), d=7)
+        f["rf"].update({"kind": f"Gz{l.capitalize()}", "noplural": True, "lookup": True})
+        fns[site] = f
+        ins = [["v", path("steps", f"st{i - 1}" if r.random() < 0.5 else "st0", "got", "x")]]
+        how = r.choice(["plain", "plain", "skipIf", "bad-inputs"])
+        sk = None
+        if how == "skipIf":
+            sk = path("steps", "st0", "got", "flag")
+        elif how == "bad-inputs":
+            ins.append(["boom", path("steps", "st0", "got", "nope")])
+        steps.append(_step(l, {"ref": {"fn": site}}, inputs={"map": ins}, skip_if=sk))
+    return {"trig": gen_trigger(r), "main": "main", "defs": [{"name": "main", "steps": steps}], "fns": fns}
+
+
 def gen_race_case(r):
     """a step with ≥ 2 dependencies that are NOT Ok and each finish on an API call (so that their completion order
     can be permuted), `condition` declared on the dependent and on the steps downstream of it"""
@@ -843,6 +923,8 @@ def _wire_fn(f):
     w = {"c": f["c"], "d": f.get("d", 0)}
     if f.get("by"):
         w["by"] = f["by"]
+    if f.get("extra"):
+        w["extra"] = [[k, to_wire(t)] for k, t in f["extra"]]
     if f.get("name"):
         w["kname"] = f["name"]
     if f.get("noret"):
@@ -852,6 +934,9 @@ def _wire_fn(f):
     if f.get("rf"):
         rf = f["rf"]
         w["rf"] = {"prefix": rf["prefix"], "nameKey": rf["nameKey"], "calls": rf["calls"], "pre": rf["pre"]}
+        if rf.get("lookup"):     # the first API request of the (single) evaluation is the discovery of the plural
+            w["rf"]["lookup"] = f'{rf["kind"]}.{rf.get("apiVersion", API_VERSION)}'
+
     return w
 
 
@@ -887,12 +972,34 @@ def cel_lit(v):
     raise ValueError(v)
 
 
+_IDENT = __import__("re").compile(r"[A-Za-z_][A-Za-z0-9_]*$")
+
+
+def cel_path(p):
+    """member access; a key that is not an identifier (a step label starting with a digit) needs index syntax"""
+    out = p[0]
+    for k in p[1:]:
+        out += f".{k}" if _IDENT.match(k) else f'["{k}"]'
+    return out
+
+
+def cel_typed(t):
+    """CEL source of a tagged non-JSON value (see wf_run.plain_typed)"""
+    if "$ts" in t:
+        return f'=timestamp("{t["$ts"]}")'
+    if "$dur" in t:
+        return f'=duration("{t["$dur"]}s")'
+    if "$bytes" in t:
+        return '=b"' + bytes.fromhex(t["$bytes"]).decode("ascii") + '"'
+    return f'=uint({t["$uint"]})'
+
+
 def cel_expr(e):
     """a standalone Koreo expression (leading `=`)"""
     if "lit" in e:
         return "=" + cel_lit(e["lit"])
     if "path" in e:
-        return "=" + ".".join(e["path"])
+        return "=" + cel_path(e["path"])
     if "bad" in e:
         return "=1/0"
     if "list" in e:
@@ -945,6 +1052,8 @@ def fn_spec(fid, f):
         if f["c"] == "ok" and f.get("noret"):       # validation-only: Ok with the value null
             return "ValueFunction", {"preconditions": [{"assert": "=true", "permFail": {"message": "never"}}]}
         if f["c"] == "ok":
+            for k, t in f.get("extra") or []:      # values that have no JSON counterpart, next to the echo
+                ret[k] = cel_typed(t)
             return "ValueFunction", {"return": ret}
         if f.get("how") == "eval":
             return "ValueFunction", {"return": {"site": fid, "boom": "=1/0"}}
